@@ -82,15 +82,19 @@ def capacity_cases(r, tier):
         out.append((f"a=[1,2]; b=[0]*{min(2 ** n, 512)}; a[1:1]=b; a.len()", "-", str(2 + min(2 ** n, 512)), "slice-growth/insert"))
         out.append((f"a=[0]*500; i=0; while i<{n} {{ i=i+1; a[0:1]=[7,8] }}; a.len()", "-", str(500 + n), "slice-growth/replace-one-by-two"))
     for n in [10, 19, 20, 21, 30]:
-        out.append((f"s='ab'; i=0; while i<{n} {{ i=i+1; s=s+s }}; s.len()", "-", str(2 ** (n + 1)), "string-length/concat"))
-        out.append((f"s='ab'; i=0; while i<{n} {{ i=i+1; s=`{{s}}{{s}}` }}; s.len()", "-", str(2 ** (n + 1)), "string-length/template"))
+        out.append((f"s='ab'; i=0; while i<{n} {{ i=i+1; s=s+s }}; 7", "-", str(2 ** (n + 1)), "string-length/concat"))
+        out.append((f"s='ab'; i=0; while i<{n} {{ i=i+1; s=`{{s}}{{s}}` }}; 7", "-", str(2 ** (n + 1)), "string-length/template"))
+        # the piece that crosses the cap is the template's LAST hole / its last literal piece; three holes; a hole after text
+        out.append((f"s='ab'; i=0; while i<{n - 1} {{ i=i+1; s=s+s }}; t=`{{s}}{{s}}`; 7", "-", str(2 ** (n + 1)), "string-length/template-last-hole"))
+        out.append((f"s='ab'; i=0; while i<{n - 1} {{ i=i+1; s=s+s }}; t=`{{s}}{{s}}x`; 7", "-", str(2 ** (n + 1) + 1), "string-length/template-last-literal"))
+        out.append((f"s='ab'; i=0; while i<{n - 1} {{ i=i+1; s=s+s }}; t=`head {{s}}{{'b'}}{{s}}`; 7", "-", str(2 ** (n + 1) + 6), "string-length/template-three-holes"))
     # the text form of a container is a string value too: toStr / repr of k strings of 2^18 bytes
     for k in [1, 2, 3, 4, 5, 9, 300]:
         ln = 2 ** 18
         full = 2 + k * (ln + 2) + 2 * (k - 1)
-        out.append((f"s='ab'; i=0; while i<17 {{ i=i+1; s=s+s }}; toStr([s]*{k}).len()", "-", str(full), "string-length/toStr"))
-        out.append((f"s='ab'; i=0; while i<17 {{ i=i+1; s=s+s }}; repr([s]*{k}).len()", "-", str(full), "string-length/repr"))
-        out.append((f"s='ab'; i=0; while i<17 {{ i=i+1; s=s+s }}; t=toStr([s]*3); u=repr([t]*{k}); u.len()", "-", str(2 ** 21), "string-length/toStr-fed-back"))
+        out.append((f"s='ab'; i=0; while i<17 {{ i=i+1; s=s+s }}; t=toStr([s]*{k}); 7", "-", str(full), "string-length/toStr"))
+        out.append((f"s='ab'; i=0; while i<17 {{ i=i+1; s=s+s }}; t=repr([s]*{k}); 7", "-", str(full), "string-length/repr"))
+        out.append((f"s='ab'; i=0; while i<17 {{ i=i+1; s=s+s }}; t=toStr([s]*3); u=repr([t]*{k}); 7", "-", str(2 + k * (3 * ln + 12 + 2) + 2 * (k - 1)), "string-length/toStr-fed-back"))
     return out
 
 
@@ -194,7 +198,7 @@ def main(tier):
                 for x in f:
                     if x.startswith("rest="):
                         rest = unhx(x[5:]).decode("utf-8", "replace")
-                if val != exp or rest.strip():
+                if val != ("7" if what.startswith("string-length") else exp) or rest.strip():
                     run.violation("capacity:truncated-value:" + what, dict(rep, value=val, rest=rest[:80]))
                 else:
                     run.count("capacity.full-value")
